@@ -51,8 +51,8 @@ type Property struct {
 var expectedProbes = map[string][]string{
 	"C01": {"program.nesting_depth_3", "program.jump_inside_nested_body", "program.options_end_a_body", "world.nodes_over_several_readers", "world.command_polled_while_pending", "world.hub_loop", "program.block_chain_6_to_12_deep", "world.size_outlier"},
 	"C03": {"world_with_failing_statement", "world_with_host_write", "storer_history", "storer_history_with_two_type_switches_on_one_name", "continued_after_failing_statement"},
-	"C06": {"fault_requiring_error", "fault_with_open_outcome", "handler_with_an_unusual_channel_result"},
-	"C07": {"receiver.FRESH", "receiver.READY", "receiver.CHOOSING", "receiver.PENDING", "receiver.ENDED", "receiver.sibling_path", "receiver.restored_before", "two_receivers_of_one_snapshot", "restored_from_a_rebuilt_copy_of_the_snapshot", "restore_of_a_hollow_snapshot_refused"},
+	"C06": {"fault_requiring_error", "fault_with_open_outcome", "handler_with_an_unusual_channel_result", "markup_world_run_without_a_model"},
+	"C07": {"receiver.FRESH", "receiver.READY", "receiver.CHOOSING", "receiver.PENDING", "receiver.ENDED", "receiver.sibling_path", "receiver.restored_before", "two_receivers_of_one_snapshot", "restored_from_a_rebuilt_copy_of_the_snapshot", "restore_of_a_hollow_snapshot_refused", "start_in_an_untitled_node_with_nothing_to_save"},
 	"C09": {"trace_with_error_texts", "seeded_run_with_a_restore"},
 	"C10": {"shape.raw_prefilled", "shape.raw_buffered", "shape.raw_unbuffered", "shape.conv_none", "shape.conv_error", "shape.conv_chan", "shape.conv_rochan", "wait_polled_one_tick_before_deadline", "command_error_surfaced", "command_polled_over_1000_times"},
 	"C11": {"node_left_three_times", "untracked_node_visited", "restore_then_jump", "world_with_failing_jumps", "node_left_over_127_times", "pass_through_node_traversed"},
@@ -78,7 +78,12 @@ func init() {
 	},
 		Worlds: map[string]int{"quick": 4000, "thorough": 5000}, Batch: map[string]int{"quick": 1, "thorough": 30},
 		Rule: "worlds = set/declare-heavy generated program (all six operators, typed and ill-typed, known and unknown variables) x host schedule with interleaved host-side writes (same type, new name, other type, clear) x storer kind (recording storer / host-held InMemoryStorer); after every op the storer's content is compared bit-exactly with the model store; non-trivial = >=3 assignments and (>=1 host write or a failing statement); distinct by hash of (program, ops)"})
-	register(&Property{ID: "C06", Level: "exploration", World: c06World, Replay: func(p *Plan) *Violation { return c06Exec(p, nil) },
+	register(&Property{ID: "C06", Level: "exploration", World: c06World, Replay: func(p *Plan) *Violation {
+		if b, _ := p.Extra["markup"].(bool); b {
+			return c06MarkupExec(p, nil)
+		}
+		return c06Exec(p, nil)
+	},
 		Worlds: map[string]int{"quick": 4000, "thorough": 5000}, Batch: map[string]int{"quick": 1, "thorough": 30},
 		Rule: "worlds = generated program with 1-2 fault sites (ill-typed operands, unknown variable/function/node/command, wrong arity or argument type, null, empty or overflowing random ranges, value-less or failing host function, non-boolean condition, bad wait arguments) at any depth, plus host faults (store cleared, other-type or markup-laden values written between steps); the model names the op of the first fault: an error is required there (or no panic where the properties leave the outcome open), then 8 further calls must not panic; non-trivial = the fault site was reached on the driven path; distinct by hash of (program, ops)"})
 	register(&Property{ID: "C10", Level: "exploration", World: c10World, Replay: func(p *Plan) *Violation { return c10Exec(p, nil) },
